@@ -102,6 +102,7 @@ def c15_rf19(run):
     rf_tables.rf134(run)
     rf_tables.rf145(run)
     rf_tables.rf154(run)
+    rf_tables.rf169(run)
 
 
 def c15_rf16h(run):
@@ -195,6 +196,7 @@ def c20_rf21(run):
     rf_vocab.rf103(run)
     rf_mir2c.rf139(run)
     rf_mir2c.rf156(run)
+    rf_mir2c.rf167(run)
     rf_vocab.rf118(run, True)
     rf_proto.rf117(run)
     rf_mir2c.rf112(run)
@@ -244,6 +246,7 @@ def c10_vocab(run):
     rf_vocab.rf118(run, False)
     rf_vocab.rf143(run)
     rf_vocab.rf159(run)
+    rf_vocab.rf172(run)
 
 
 def c17_rf2(run):
@@ -294,6 +297,7 @@ def c12_rf13(run):
     rf_bounds.rf135(run)
     rf_bounds.rf146(run)
     rf_bounds.rf160(run)
+    rf_bounds.rf173(run)
     run.min_instances('RF13c', 2)
 
 
@@ -425,6 +429,7 @@ def c13_rf16(run):
     rf_proto.rf150(run)
     rf_proto.rf157(run)
     rf_proto.rf158(run)
+    rf_proto.rf168(run)
 
 
 def c14_rf16f(run):
@@ -442,6 +447,7 @@ def c14_rf16f(run):
     rf_iface.rf151(run)
     rf_proto.rf16m(run)
     rf_proto.rf162(run)
+    rf_proto.rf171(run)
 
 
 def c02_rf7a(run):
@@ -530,6 +536,7 @@ def c05_rf10(run):
     rf_abi.rf126(run)
     rf_abi.rf133(run)
     rf_abi.rf144(run)
+    rf_templates.rf174(run)
     rf_fold.rf23(run)
 
 
@@ -552,6 +559,7 @@ def c06_rf10(run):
     rf_iface.rf147(run)
     rf_fold.rf23(run)
     rf_abi.rf155(run)
+    rf_fold.rf166(run)
 
 
 def c02_rf9(run):
@@ -583,6 +591,7 @@ def c02_rf26(run):
     rf_fold.rf100(run)
     rf_x86.rf110(run)
     rf_fold.rf141(run)
+    rf_fold.rf170(run)
     rf_fold.rf149(run)
 
 
